@@ -534,8 +534,9 @@ Lemma release_eq_wait s i b : GA (arrs s) -> i < length (arrs s) ->
 Proof.
   intros HA Hi Hc Hb Hw. unfold get in *.
   assert (Hbl : b < length (arrs s)) by (destruct (gBase HA _ Hb); lia).
-  unfold release. cbv zeta. unfold get. rewrite (gK HA Hi), (gK HA Hbl). rewrite Hc. simpl.
-  rewrite Hb. rewrite Hw. simpl. rewrite Hb. reflexivity.
+  unfold release. cbv zeta. unfold get. rewrite (gK HA Hi). rewrite Hc. simpl.
+  rewrite Hb. rewrite (gK HA Hbl). rewrite Hw. simpl. rewrite Hb.
+  unfold wadd, wcur. reflexivity.
 Qed.
 
 Lemma release_eq_untrack_view s i b : GA (arrs s) -> i < length (arrs s) ->
@@ -565,4 +566,111 @@ Proof.
   unfold release. cbv zeta. unfold get. rewrite (gK HA Hi). rewrite Hc. simpl.
   rewrite Hb. simpl. rewrite nth_upd_arr_eq by auto. simpl. rewrite Hb.
   unfold wclear. destruct (aget i match adel i (tracker s) with [] => [] | _ :: _ => waiting s end); reflexivity.
+Qed.
+
+Lemma GT_adel n i T : GT n T -> GT n (adel i T).
+Proof.
+  intros H k j Hk. destruct (Nat.eq_dec k i) as [->|Hne].
+  - rewrite aget_adel_eq in Hk. discriminate.
+  - rewrite aget_adel_neq in Hk; auto.
+Qed.
+Lemma GC_adel n i C : GC n C -> GC n (adel i C).
+Proof.
+  intros H k Hk. destruct (Nat.eq_dec k i) as [->|Hne].
+  - apply cget_adel_eq.
+  - rewrite cget_adel_neq; auto.
+Qed.
+Lemma GC_aset n i v C : i < n -> GC n C -> GC n (aset i v C).
+Proof. intros Hi H k Hk. rewrite cget_aset_neq; auto. lia. Qed.
+
+Lemma tb_nil k : tb [] k = false. Proof. reflexivity. Qed.
+
+Lemma inw_wclear T' W b v k : tb T' k = true -> inw (wclear T' W) b v = inw W b v.
+Proof. intros H. destruct T'; [rewrite tb_nil in H; discriminate | reflexivity]. Qed.
+
+Lemma Inv_release_dec A C T W c i m :
+  Inv A C T W c -> i < length A -> a_orig (g A i) = true -> cget i C = S (S m) ->
+  Inv A (aset i (S m) C) T W (upd c i (S m)).
+Proof.
+  intros HI Hi Ho Hc.
+  destruct (iLoc HI Hi) as [hC hRO hT]. specialize (hT Ho). destruct hT as [a1 a2 a3 a4 a5 a6 a7].
+  assert (Ht : tb T i = true) by (apply a2; lia).
+  destruct HI as [H1 H2 H3 H4 H5]. split; auto.
+  - apply GC_aset; auto.
+  - intros j Hj. destruct (Nat.eq_dec j i) as [->|Hne]; auto. rewrite upd_neq in Hj; auto.
+  - intros j Hj. destruct (Nat.eq_dec j i) as [->|Hne].
+    + split.
+      * intros _. apply hC. lia.
+      * intros; congruence.
+      * intros _. split; rewrite ?cget_aset_eq, ?upd_eq; auto; intros; try lia; try congruence.
+    + eapply Loc_frame; eauto.
+      * apply cget_aset_neq; auto.
+      * apply upd_neq; auto.
+Qed.
+
+Lemma Inv_release_wait A C T W W' c i b :
+  Inv A C T W c -> i < length A -> a_orig (g A i) = true -> a_base (g A i) = Some b ->
+  cget i C = 1 -> a_wr (g A b) = false ->
+  inw W' b i = true -> (forall b' v, inw W b' v = true -> inw W' b' v = true) ->
+  Inv A (adel i C) T W' (upd c i 0).
+Proof.
+  intros HI Hi Ho Hb Hc Hwb Hin Hsub.
+  destruct (iLoc HI Hi) as [hC hRO hT]. specialize (hT Ho). destruct hT as [a1 a2 a3 a4 a5 a6 a7].
+  assert (Ht : tb T i = true) by (apply a2; lia).
+  destruct (gBase (iGA HI) _ Hb) as (Hbi & Hbb & Hob & Hab).
+  assert (Hbl : b < length A) by lia.
+  assert (Htb : tb T b = true).
+  { destruct (tb T b) eqn:E; auto.
+    destruct (iLoc HI Hbl) as [_ _ hT']. rewrite Ho in Hob. specialize (hT' Hob).
+    assert (a_wr (g A b) = true) by (apply (l3 hT'); auto). congruence. }
+  destruct HI as [H1 H2 H3 H4 H5]. split; auto.
+  - apply GC_adel; auto.
+  - intros j Hj. destruct (Nat.eq_dec j i) as [->|Hne].
+    + rewrite upd_eq in Hj. lia.
+    + rewrite upd_neq in Hj; auto.
+  - intros j Hj. destruct (Nat.eq_dec j i) as [->|Hne].
+    + split.
+      * rewrite upd_eq. lia.
+      * intros; congruence.
+      * intros _. split; rewrite ?cget_adel_eq, ?upd_eq; auto; intros; try lia; try congruence.
+        assert (b0 = b) by congruence. subst b0. auto.
+    + eapply Loc_frame; eauto.
+      * apply cget_adel_neq; auto.
+      * apply upd_neq; auto.
+Qed.
+
+Lemma Inv_release_untrack_view A C T W c i b :
+  Inv A C T W c -> i < length A -> a_orig (g A i) = true -> a_base (g A i) = Some b ->
+  cget i C = 1 ->
+  Inv (upd_arr A i (set_wr true)) (adel i C) (adel i T) (wclear (adel i T) W) (upd c i 0).
+Proof.
+  intros HI Hi Ho Hb Hc.
+  destruct (iLoc HI Hi) as [hC hRO hT]. specialize (hT Ho). destruct hT as [a1 a2 a3 a4 a5 a6 a7].
+  assert (HGA := iGA HI).
+  destruct HI as [H1 H2 H3 H4 H5].
+  assert (HS : sbwl A (upd_arr A i (set_wr true))) by apply sbwl_upd.
+  split; rewrite ?length_upd_arr.
+  - eapply GA_sbwl; eauto.
+  - apply GT_adel; auto.
+  - apply GC_adel; auto.
+  - intros j Hj. destruct (Nat.eq_dec j i) as [->|Hne].
+    + rewrite upd_eq in Hj. lia.
+    + rewrite upd_neq in Hj; auto.
+  - intros j Hj. destruct (Nat.eq_dec j i) as [->|Hne].
+    + split; rewrite ?g_upd_eq by auto; simpl.
+      * rewrite upd_eq. lia.
+      * intros; congruence.
+      * intros _. split; rewrite ?g_upd_eq by auto; simpl;
+          rewrite ?cget_adel_eq, ?upd_eq, ?tb_adel_eq; auto; intros; try lia; try congruence.
+    + eapply Loc_frame; eauto.
+      * apply g_upd_neq; auto.
+      * apply cget_adel_neq; auto.
+      * apply tb_adel_neq; auto.
+      * apply upd_neq; auto.
+      * intros b' Hoj Hbj Htj Hcj Hw Htb'.
+        assert (Hne' : b' <> i).
+        { intros ->. destruct (gBase HGA _ Hbj) as (_ & Hbb & _). congruence. }
+        split.
+        -- rewrite (inw_wclear _ _ _ _ j); auto. rewrite tb_adel_neq; auto.
+        -- rewrite tb_adel_neq; auto.
 Qed.
